@@ -2,6 +2,7 @@ import SspModel.Real
 import SspModel.Generated.Formulas
 import SspModel.Generated.Constants
 import SspModel.Model.Life
+import Mathlib.Tactic.NormNum
 import SspModel.Lemmas.Bridge.Basic
 /-!
 # Bridge (BHPop): the duplicated lifetime closures inside `InitialBHPopulation.from_IMF`
@@ -16,5 +17,18 @@ theorem gen_dmdt_bh (a0 a1 a2 t : ℝ) : Generated.dmdt_bh a0 a1 a2 t = dmdtAbs 
 theorem gen_tms_bh (a0 a1 a2 m : ℝ) : Generated.tms_bh a0 a1 a2 m = tms a0 a1 a2 m := rfl
 theorem gen_mto_bh (a0 a1 a2 t : ℝ) :
     (if Generated.mto_bh_cond a0 t then some (Generated.mto_bh_fin a0 a1 a2 t) else none) = mto a0 a1 a2 t := rfl
+
+/-- the entries of the nested `_derivs_BHs` are, expression by expression, those of `EvolvedMF._derivs_sev` with `frem = 1`, the
+    hard-coded 0.1 in place of `Nmin`, and the extra `t <= final_age` in the deposit condition -/
+theorem gen_bh_entries (Nj p Aj mto aj dNdm dmdt dNdt frem mrem m1 t fa : ℝ) :
+    Generated.bh_Aj Nj p = Generated.sev_Aj Nj p ∧ Generated.bh_dNdm Aj mto aj = Generated.sev_dNdm Aj mto aj ∧
+    Generated.bh_dNdt dNdm dmdt = Generated.sev_dNdt dNdm dmdt ∧ Generated.bh_dNr dNdt frem = Generated.sev_dNr dNdt frem ∧
+    Generated.bh_dMr mrem dNdt frem = Generated.sev_dMr mrem dNdt frem ∧
+    Generated.bh_active mto m1 Nj = Generated.sev_active mto m1 Nj Generated.NminBH ∧
+    Generated.bh_gate t fa mrem = (Scalar.le t fa && Scalar.lt 0 mrem) ∧
+    Generated.bh_frem (0 : ℝ) = 1 := by
+  refine ⟨rfl, rfl, rfl, rfl, rfl, rfl, ?_, ?_⟩
+  · simp only [Generated.bh_gate, real_zero]
+  · simp only [Generated.bh_frem, real_ofSci]; norm_num
 
 end Bridge
